@@ -190,8 +190,8 @@ Proof.
   - (* PIkTaken *) injection H as <-. e4_q_own t HQ Hth Hpc Hni.
   - (* PIkLookup *)
     destruct hit as [e|].
-    + destruct (match e_kind e with KCreate => _ | _ => _ end);
-        [|destruct (is_tx_kind (rq_kind (t_req th)))]; injection H as <-; e4_q_own t HQ Hth Hpc Hni.
+    + (* replay of the request's own outcome / refusal of a reused key: a [finish] of an unqueued thread *)
+      destruct (is_outcome_of (t_req th) e); injection H as <-; e4_q_own t HQ Hth Hpc Hni.
     + injection H as <-.
       apply (e4_q_enter s (gen s) t _ _ HQ Hni (e4_enter_exec_q _ _ _)).
       apply (q_pre _ HQ _ _ Hth). rewrite Hpc; reflexivity.
